@@ -579,7 +579,9 @@ def run(ctx):
                 "stored zeros or not, metadata or none) x named function x both kernel implementations; "
                 "table: core.gen_spec tables up to 6x7 (8x9 thorough) x every core.build route x axis x inplace x "
                 "{element-wise, vector-wise, norm, pa, 5 rank methods} x both implementations; axis-free: element-wise "
-                "function along both axes, in place or not; cli: normalize-table on JSON/HDF5 files. non-trivial = "
+                "function along both axes, in place or not; cli: normalize-table on JSON/HDF5 files; every third table case "
+                "draws tiny/huge magnitudes (5e-324 .. 1e300, totals above 1e8 with a singleton) under exact operations "
+                "and norm -> X chains. non-trivial = "
                 "kernel: at least one vector and two stored values; table: at least two non-zero cells and a grid "
                 "that is not its own transpose. distinct = distinct case content")
     ctx.trusted = ["scipy tocsr/tocsc/eliminate_zeros and scipy.stats.rankdata are external: the matrix handed to the "
